@@ -209,6 +209,9 @@ def gen_timeline(prop, run_seed, tier, ctx):
 
 def _parse(req, reference):
     from recognizers_date_time import recognize_datetime
+    if reference is None:
+        # implicit mode: the argument is OMITTED, not passed as None (a default evaluated at import differs)
+        return lib.canon(recognize_datetime(req['text'], req['culture']))
     return lib.canon(recognize_datetime(req['text'], req['culture'], reference=reference))
 
 
